@@ -4,10 +4,14 @@ Relations
   resolve : transform / simphenotype / ld invoked through click's CliRunner with the Python entry
             point replaced by a recorder: what (samples, ids) it receives for every way of
             spelling the selection (-s/--sample, -S/--samples-file, -i/--id, -I/--ids-file, both
-            forms, file styles), and the same selection spelled the other way
+            forms), for every shape a user writes the file in (LF, unterminated last line, CRLF,
+            CRLF unterminated, a blank last line) and odd layouts, and the same selection spelled
+            the other way (a file of that shape <-> repeated options)
   cli     : all seven subcommands run for real through CliRunner and through the documented
-            Python entry point on the same parameters (and once more respelled); outputs
-            compared line by line, exit codes, samples/IDs present in the output
+            Python entry point on the same parameters, once more respelled (short <-> long,
+            file of the drawn shape <-> repeated options) and, when the selection names unknown
+            entries, once more without them; outputs compared line by line, exit codes,
+            samples/IDs present in the output, messages of level >= WARNING and library warnings
 """
 import gzip
 import hashlib
@@ -27,22 +31,44 @@ PROPERTY_MODULE = "C19_Property"
 ALLOWED_AXIOMS = []
 RULE = (
     "resolve: an invocation that restricts samples and/or IDs with >= 2 entries or through a file (incl. duplicates, "
-    "unknown entries, CRLF / blank-line / unterminated / empty files, both forms). cli: a run of one of the seven "
-    "subcommands that completes and writes non-empty output, or one that restricts samples/IDs (incl. unknown "
-    "entries, both forms). Distinct = distinct canonical JSON."
+    "unknown entries, LF / unterminated / CRLF / blank-last-line / blank-line-inside / vertical-tab / U+2028 / empty "
+    "files, both forms). cli: a run of one of the seven subcommands that completes and writes non-empty output, or one "
+    "that restricts samples/IDs (incl. unknown entries, both forms, every file shape). Distinct = distinct canonical JSON."
 )
 TRUSTED = [
     "click: parses the command line and passes declared option values (repeated options as a tuple, click.File as an "
-    "open text file); UsageError -> exit 2, other exception -> exit 1 (the model covers only the option-resolution "
-    "logic of haptools/__main__.py)",
+    "open text file); UsageError -> exit 2 and the 'Usage: ... Error: ...' text, other exception -> exit 1 (the model "
+    "covers only the option-resolution logic of haptools/__main__.py)",
     "str.splitlines boundaries as documented (\\n \\r \\r\\n \\v \\f \\x1c-\\x1e \\x85 \\u2028 \\u2029); strings are code-point lists",
-    "interning of output lines to integers (injective per case); PNG / .tbi / PGEN outputs compared as SHA-256 of bytes",
+    "interning of output lines to integers (injective per case); PNG / .tbi / PGEN / BCF outputs compared as SHA-256 of bytes",
+    "what a run reports is observed as the log records of level >= WARNING that reach the root logger plus the warnings "
+    "issued through Python's warnings module (recorded with an 'always' filter); a message is split into words at "
+    "whitespace, with []{}()'\"`,:;. stripped from both ends of a word, and words are interned",
+    "harness-side writers of the inputs (bgzip/tabix via pysam, BCF via pysam.bcftools, PGEN via pgenlib, C01's "
+    "model/map files, C11's .hap files, C17's clump inputs)",
 ]
 ASSUMPTIONS = [
-    "file_eq_repeated: at least one entry, no entry contains a line boundary character, one entry per line each "
-    "terminated by \\n (DESIGN.md section 10 for empty files)",
-    "cli configurations avoid inputs that trip defects owned by other properties (un-indexed VCF, ld --from-gts with a "
-    "variant target, simgenotype --seed 0, effect IDs absent from the genotypes)",
+    "file == repeated options is demanded (holds) for a list of >= 1 entries none of which contains a line boundary "
+    "character, written one entry per line as LF-terminated lines, with an unterminated last line (last entry not "
+    "empty), with CRLF line ends, or CRLF with an unterminated last line: the entry point must receive exactly the "
+    "collection that repeating the option hands it, and the command must write the same output. For the same list "
+    "followed by ONE blank line (LF or CRLF) the entry point may additionally receive the empty entry - an empty name "
+    "names no sample, haplotype or variant - so the collections are compared without empty entries, and the command "
+    "must write the same output. An entry with leading/trailing blanks is a different name (no stripping is demanded or "
+    "tolerated). Blank lines inside the list, \\v, U+2028 and lone \\r separators are checked against the model only "
+    "(agree). Empty files: DESIGN.md section 10.",
+    "unknown entries ('reported and ignored'): judged against the same command line without the unknown entries, when "
+    "every restricted selection keeps >= 1 known entry: same exit status and same output (ignored); if the run exits 0 "
+    "and the verbosity is INFO (default), WARNING or DEBUG, at least one message of level >= WARNING or library warning "
+    "that the run without them does not give (reported); for --id/--ids-file of transform and simphenotype and the "
+    "haplotype IDs of ld each unknown entry (at most five: the messages list 'the first few') must moreover be a word "
+    "of a message of level >= WARNING, because those commands name them. For samples and for ld --from-gts only the "
+    "weaker form is demanded.",
+    "--id next to --ids-file: the property does not say which wins; the model (file wins) is compared (agree), holds "
+    "demands only exit-status / respelling / unknown-entry clauses for such runs",
+    "cli configurations avoid inputs that trip defects owned by other properties (un-indexed VCF, effect IDs absent from "
+    "the genotypes); a region that cuts a haplotype of ld, or a selection naming only unknown samples, makes both entry "
+    "points raise the same exception, which the property allows (non-zero exit)",
 ]
 
 CMDS = ["transform", "simphenotype", "ld", "index", "clump", "simgenotype", "karyogram"]
@@ -51,7 +77,9 @@ USER_STYLES = ["lf", "nofinal", "crlf", "crlf_nofinal", "lf_blank", "crlf_blank"
 # ... and layouts where only the model/implementation agreement is checked
 ODD_STYLES = ["blank", "vt", "u2028", "empty"]
 ENTRY_POOL = ["S0", "S1", "S2", "S3", "NA12878", "HG00096", "H0", "H1", "H2", "chr21.q.3365*1", "rs429358",
-              "sample 1", "a\tb", "ü", "x.y", "unknownID"]
+              "sample 1", "a\tb", "ü", "x.y", "unknownID",
+              # blanks at either end belong to the name: "S1 " is not "S1"
+              "S1 ", " H1", "NA12", "NA1"]
 
 
 def main_cmd():
@@ -1173,14 +1201,17 @@ RELATIONS = [Resolve(), Cli()]
 
 LEVEL_TEXT = (
     "Coq theorems over all ID/sample lists (strings as code-point lists, no size bound) about a Gallina model of the "
-    "option post-processing in haptools/__main__.py (splitlines, both-forms usage error, file-over-options for IDs, "
-    "exit status, selection by membership); tied to /repo on every run by evaluating in Coq model-vs-implementation "
-    "agreement on what the entry points receive (recorder in place of the entry point) and, for all seven subcommands, "
-    "CliRunner-vs-Python-entry-point output equality, respelled command lines and exit codes."
+    "option post-processing in haptools/__main__.py (splitlines, every file shape a user writes - LF, unterminated, "
+    "CRLF, blank last line -, both-forms usage error, file-over-options for IDs, exit status, selection by "
+    "membership); tied to /repo on every run by evaluating in Coq model-vs-implementation agreement on what the entry "
+    "points receive (recorder in place of the entry point) and, for all seven subcommands, CliRunner-vs-Python-entry-"
+    "point output equality, respelled command lines, exit codes, and the run without its unknown entries (ignored / "
+    "reported)."
 )
 LEVEL_NOTE = (
     "Partial: click's own parsing is trusted; the theorems cover the option-resolution logic and selection by "
-    "membership, the equality of whole-command outputs is established by the correspondence run only. 'reported' "
-    "(a warning is logged for unknown entries) is not checked, only 'ignored, never replaced'."
+    "membership, the equality of whole-command outputs is established by the correspondence run only. 'reported' is "
+    "checked as 'a warning that is absent without the unknown entries' everywhere and as 'named in a warning' only "
+    "where the commands name entries (IDs of transform / simphenotype, haplotype IDs of ld)."
 )
 TECHNIQUE = "Coq proof by induction on code-point lists + vm_compute-evaluated correspondence against the implementation"
